@@ -35,7 +35,9 @@ static void build(void) {
     /* sizes that are not a multiple of the page size: the rounded size decides the allocator class */
     "c5r j0 c5r j1 c5y j2 c5r j3", "c6y c5y j1 j0 c6r c5r j2 j3",
     /* different requests that share one allocator size class: 3 pages then 4 pages, 4097 bytes then 2 pages, 5 pages then 8 */
-    "c3r j0 c7r j1 c3r j2", "c8r j0 c2r j1 c8y j2", "c9r j0 c4r j1 c9r c3r j3 j2", "c3y c7y j0 j1 c7r c3r j2 j3", 0 };
+    "c3r j0 c7r j1 c3r j2", "c8r j0 c2r j1 c8y j2", "c9r j0 c4r j1 c9r c3r j3 j2", "c3y c7y j0 j1 c7r c3r j2 j3",
+    /* a custom stack that also carries custom data (scheduling hint), recycled as default and as custom stacks afterwards */
+    "chr j0 c0y c0y c0y j1 j2 j3", "chy c7r j0 j1 chr c7y j2 j3", "chr j0 chr j1 c0r c7r j2 j3", 0 };
   for (int tier = 0; tier < 2; tier++) for (int i = 0; S[i]; i++) for (int W = 1; W <= (tier ? 3 : 2); W++) {
     int len = strlen(S[i]); int K = 2;
     if (tier && len <= 14 && W == 2) K = 3;
@@ -87,7 +89,7 @@ static void describe(int tier, int prog, char * b, size_t n) { build(); snprintf
 
 static prog_t * cur;
 static myth_thread_t th[8]; static int nth, detached_attr[8], reaped[8], yields_in_body[8];
-static volatile int fin[8], started[8];
+static volatile int fin[8], started[8]; static int has_hint[8];
 static const size_t stack_of[] = { 0, 4096, 8192, 12288, 65536, 20000, 70000, 16384, 4097, 20480 };
 
 static void * nested_child(void * a) { (void)a; myth_yield(); myth_yield(); return (void *)4242; }
@@ -95,6 +97,7 @@ static void * body(void * a) {
   int i = (int)(long)a;
   volatile unsigned char canary[96];
   started[i]++;
+  if (has_hint[i]) h_check_hint();
   for (int k = 0; k < 96; k++) canary[k] = (unsigned char)(i * 7 + k);
   if (yields_in_body[i] == 2) {   /* nested: the thread itself blocks in a join of a child that yields (status "blocked" while it waits) */
     myth_thread_t c = myth_create(nested_child, 0); void * r = 0; myth_join(c, &r); MV_CHECK(r == (void *)4242, "nested child delivered %p", r);
@@ -131,6 +134,7 @@ static void run(int tier, int prog) {
 	int rc = myth_create_ex(&th[me], &a, body, (void *)(long)me); MV_CHECK(rc == 0, "create_ex failed");
 	reaped[me] = 1; mv_cover(5);
       } else if (tok[1] == '0') { th[me] = myth_create(body, (void *)(long)me); }
+      else if (tok[1] == 'h') { int rc = h_spawn(V_EX_HINT, &th[me], body, (void *)(long)me); MV_CHECK(rc == 0, "create_ex failed"); has_hint[me] = 1; mv_cover(6); }
       else {
 	myth_thread_attr_t a; memset(&a, 0x5A, sizeof a); myth_thread_attr_init(&a);
 	myth_thread_attr_setstacksize(&a, stack_of[tok[1] - '0']);
@@ -193,8 +197,8 @@ static void run(int tier, int prog) {
   if (cur->recycle_check && fresh_after_first_d >= 0) {
     /* a stack prepared through an attribute object comes from the size-class allocator, a default one from the
        default-stack list: one fresh stack per kind is legitimate, records are all of one kind */
-    int kinds = 0, seen_kind[8] = {0};
-    for (const char * q = cur->ops; *q; q++) if (*q == 'c') { int k = q[1] == 'n' ? 7 : q[1] - '0'; if (!seen_kind[k]) { seen_kind[k] = 1; kinds++; } }
+    int kinds = 0, seen_kind[80] = {0};
+    for (const char * q = cur->ops; *q; q++) if (*q == 'c') { int k = (q[1] - '0') & 63; if (!seen_kind[k]) { seen_kind[k] = 1; kinds++; } }
     MV_CHECK(mv_ledger_fresh(0) == fresh_after_first_d && mv_ledger_fresh(1) <= kinds,
 	     "create/reap cycles on one worker needed fresh memory after the first cycle (records %ld -> %ld, stacks %ld -> %ld with %d stack kinds): reaping does not recycle",
 	     fresh_after_first_d, mv_ledger_fresh(0), fresh_after_first_s, mv_ledger_fresh(1), kinds);
